@@ -25,13 +25,13 @@ use std::panic::AssertUnwindSafe;
 
 use wf_harness::{airfam::*, catch, coinrec::{take_log, RecordingCoin}, jstr, prng::Rng, silence_panics, toy::ToyHasher};
 use winter_air::{
-    proof::OodFrame, Air, AuxRandElements, ConstraintCompositionCoefficients, EvaluationFrame, FieldExtension, ProofOptions,
-    TraceInfo, TransitionConstraints,
+    proof::OodFrame, Air, AirContext, Assertion, AuxRandElements, ConstraintCompositionCoefficients, EvaluationFrame, FieldExtension,
+    ProofOptions, TraceInfo, TransitionConstraints,
 };
 use winter_crypto::{hashers::Blake3_256, DefaultRandomCoin, ElementHasher, RandomCoin};
 use winter_math::{
     fields::{f128, f64, CubeExtension, QuadExtension},
-    ExtensibleField, FieldElement, StarkField,
+    ExtensibleField, ExtensionOf, FieldElement, StarkField, ToElements,
 };
 use winter_prover::{
     matrix::ColMatrix, CompositionPoly, CompositionPolyTrace, ConstraintEvaluator, DefaultConstraintEvaluator, DefaultTraceLde,
@@ -111,7 +111,7 @@ struct RefDef<B: StarkField, E: FieldElement<BaseField = B>> {
 struct Point<E> { cur: Vec<E>, nxt: Vec<E>, acur: Vec<E>, anxt: Vec<E>, pers: Vec<E>, value: E }
 
 impl<B: StarkField, E: FieldElement<BaseField = B>> RefDef<B, E> {
-    fn new(spec: &Spec, main: Vec<Vec<B>>, avals: &[Vec<B>], aux: Vec<Vec<E>>, rands: Vec<E>, tcoef: Vec<E>, bcoef: &[E]) -> Self {
+    fn new(spec: &Spec, main: Vec<Vec<B>>, avals: &[Vec<B>], aux_asserts: &[(AKind, Vec<E>)], aux: Vec<Vec<E>>, rands: Vec<E>, tcoef: Vec<E>, bcoef: &[E]) -> Self {
         let n = spec.n();
         let g = B::get_root_of_unity(spec.log_n);
         let dom: Vec<B> = (0..n).map(|i| g.exp((i as u64).into())).collect();
@@ -145,9 +145,21 @@ impl<B: StarkField, E: FieldElement<BaseField = B>> RefDef<B, E> {
         }).collect();
         mains.sort_by_key(|a| a.key);
         let mut asserts = mains;
-        for j in 0..spec.aux_width {
-            asserts.push(RefAssert { aux: true, col: j, steps: vec![0], vals: vec![if j == 0 { E::ONE } else { E::ZERO }], interp: None, beta: E::ZERO, key: (0, 0, j) });
-        }
+        // auxiliary assertions: sorted among themselves the same way, coefficients after the main ones
+        let mut auxs: Vec<RefAssert<B, E>> = aux_asserts.iter().map(|(a, v)| {
+            let (col, steps) = assertion_steps(a, n);
+            match a {
+                AKind::Single { col, step } => RefAssert { aux: true, col: *col, steps, vals: vec![v[0]], interp: None, beta: E::ZERO, key: (0, *step, *col) },
+                AKind::Periodic { first, stride, .. } => RefAssert { aux: true, col, steps, vals: vec![v[0]], interp: None, beta: E::ZERO, key: (*stride, *first, col) },
+                AKind::Sequence { first, stride, .. } => {
+                    if steps.len() == 1 { RefAssert { aux: true, col, steps, vals: vec![v[0]], interp: None, beta: E::ZERO, key: (0, *first, col) } }
+                    else { let pts: Vec<B> = steps.iter().map(|&s| dom[s]).collect();
+                           RefAssert { aux: true, col, steps, vals: v.clone(), interp: Some(Interp::new(pts)), beta: E::ZERO, key: (*stride, *first, col) } }
+                }
+            }
+        }).collect();
+        auxs.sort_by_key(|a| a.key);
+        asserts.extend(auxs);
         for (a, &b) in asserts.iter_mut().zip(bcoef) { a.beta = b; }
         RefDef { spec: spec.clone(), n, g, tr, main, aux, rands, ks, pers, tcoef, asserts }
     }
@@ -227,6 +239,92 @@ impl Stats {
     fn shape(&mut self, k: &str) { *self.shapes.entry(k.to_string()).or_insert(0) += 1; }
 }
 
+// ================================================================================================ family + arbitrary aux assertions
+/// `FamAir` with the auxiliary-segment assertions replaced by an arbitrary list (single / periodic / sequence, values given):
+/// the shared family (harness/src/airfam.rs) only asserts single values against auxiliary columns.  Everything else is
+/// delegated to the inner FamAir; the context is rebuilt from the inner one's declared degrees with the new assertion count.
+/// Values are stored as base-field coordinates so that the public inputs do not depend on the extension type.
+#[derive(Clone)]
+struct XPub<B: StarkField> { inner: PubInputs<B>, aux: Vec<(AKind, Vec<B>)> }
+impl<B: StarkField> ToElements<B> for XPub<B> {
+    fn to_elements(&self) -> Vec<B> {
+        let mut v = self.inner.to_elements();
+        for (k, vals) in &self.aux {
+            let (t, c, f, s) = match k { AKind::Single { col, step } => (0u32, *col, *step, 0), AKind::Periodic { col, first, stride } => (1, *col, *first, *stride), AKind::Sequence { col, first, stride } => (2, *col, *first, *stride) };
+            v.extend([B::from(t), B::from(c as u32), B::from(f as u32), B::from(s as u32), B::from(vals.len() as u32)]);
+            v.extend(vals.iter().copied());
+        }
+        v
+    }
+}
+struct XAir<B: StarkField + ExtensibleField<2> + ExtensibleField<3>> { inner: FamAir<B>, ctx: AirContext<B>, aux: Vec<(AKind, Vec<B>)> }
+impl<B: StarkField + ExtensibleField<2> + ExtensibleField<3>> Air for XAir<B> {
+    type BaseField = B;
+    type PublicInputs = XPub<B>;
+    type GkrProof = ();
+    type GkrVerifier = ();
+    fn new(trace_info: TraceInfo, pi: XPub<B>, options: ProofOptions) -> Self {
+        let inner = FamAir::<B>::new(trace_info.clone(), pi.inner.clone(), options.clone());
+        let ctx = if pi.inner.spec.aux_width == 0 { inner.context().clone() } else {
+            let ic = inner.context();
+            let tc = TransitionConstraints::<B>::new(ic, &vec![B::ONE; ic.num_transition_constraints()]);
+            AirContext::new_multi_segment(trace_info, tc.main_constraint_degrees().to_vec(), tc.aux_constraint_degrees().to_vec(),
+                pi.inner.spec.assertions.len(), pi.aux.len(), None, options).set_num_transition_exemptions(ic.num_transition_exemptions())
+        };
+        XAir { inner, ctx, aux: pi.aux }
+    }
+    fn context(&self) -> &AirContext<B> { &self.ctx }
+    fn evaluate_transition<E: FieldElement<BaseField = B>>(&self, frame: &EvaluationFrame<E>, periodic_values: &[E], result: &mut [E]) {
+        self.inner.evaluate_transition(frame, periodic_values, result)
+    }
+    fn get_assertions(&self) -> Vec<Assertion<B>> { self.inner.get_assertions() }
+    fn get_periodic_column_values(&self) -> Vec<Vec<B>> { self.inner.get_periodic_column_values() }
+    fn evaluate_aux_transition<F, E>(&self, main_frame: &EvaluationFrame<F>, aux_frame: &EvaluationFrame<E>, periodic: &[F], rands: &[E], result: &mut [E])
+    where F: FieldElement<BaseField = B>, E: FieldElement<BaseField = B> + ExtensionOf<F> {
+        self.inner.evaluate_aux_transition(main_frame, aux_frame, periodic, rands, result)
+    }
+    fn get_aux_assertions<E: FieldElement<BaseField = B>>(&self, _rands: &[E]) -> Vec<Assertion<E>> {
+        self.aux.iter().map(|(k, flat)| {
+            let vals: Vec<E> = E::slice_from_base_elements(flat).to_vec();
+            match k {
+                AKind::Single { col, step } => Assertion::single(*col, *step, vals[0]),
+                AKind::Periodic { col, first, stride } => Assertion::periodic(*col, *first, *stride, vals[0]),
+                AKind::Sequence { col, first, stride } => Assertion::sequence(*col, *first, *stride, vals),
+            }
+        }).collect()
+    }
+}
+
+/// The complete list of auxiliary assertions: the family's defaults (column j, step 0) unless an extra assertion on the same
+/// column covers step 0 (assertions on one column must not overlap), then the extras.
+fn aux_assertion_kinds(spec: &Spec, extra: &[AKind]) -> Vec<AKind> {
+    let n = spec.n();
+    let mut v = vec![];
+    for j in 0..spec.aux_width {
+        if !extra.iter().any(|a| { let (c, steps) = assertion_steps(a, n); c == j && steps.contains(&0) }) { v.push(AKind::Single { col: j, step: 0 }); }
+    }
+    v.extend(extra.iter().cloned());
+    v
+}
+/// number of asserted values (1 for single / periodic), number of asserted steps, exponent of the divisor's constant
+fn akind_shape(a: &AKind, n: usize) -> (usize, usize, usize) {
+    match a {
+        AKind::Single { step, .. } => (1, 1, *step),
+        AKind::Periodic { first, stride, .. } => (1, n / stride, (first * (n / stride)) % n),
+        AKind::Sequence { first, stride, .. } => (n / stride, n / stride, (first * (n / stride)) % n),
+    }
+}
+/// cells of {main, aux} x {single value, small polynomial, large polynomial} x {divisor shared with the other segment, not}
+fn boundary_cells(spec: &Spec, aux: &[AKind]) -> Vec<String> {
+    let n = spec.n();
+    let div = |a: &AKind| { let (_, steps, e) = akind_shape(a, n); (steps, e) };
+    let repr = |a: &AKind| { let (vals, _, _) = akind_shape(a, n); if vals == 1 { "single-value" } else if vals < 63 { "small-poly" } else { "large-poly" } };
+    let mut v = vec![];
+    for a in &spec.assertions { v.push(format!("boundary:main:{}:{}", repr(a), if aux.iter().any(|b| div(b) == div(a)) { "divisor-shared" } else { "divisor-unshared" })); }
+    for a in aux { v.push(format!("boundary:aux:{}:{}", repr(a), if spec.assertions.iter().any(|b| div(b) == div(a)) { "divisor-shared" } else { "divisor-unshared" })); }
+    v
+}
+
 // ================================================================================================ structured assertion values
 /// Classes of asserted values that make coefficients of the assertion value polynomial vanish (random values do so with
 /// probability 1/|F|): 0 values summing to zero (constant coefficient 0), 1 all zero, 2 all equal (constant polynomial),
@@ -255,6 +353,20 @@ fn structured_avals<B: StarkField>(spec: &Spec, pattern: u64, r: &mut Rng) -> Ve
     spec.assertions.iter().map(|a| match a {
         AKind::Sequence { stride, .. } => structured_vals::<B>(pattern, spec.n() / stride, r),
         _ => structured_vals::<B>(pattern, 1, r),
+    }).collect()
+}
+
+/// values of the auxiliary assertions: the family's defaults are 1 (column 0) and 0 at step 0; extras are read off the
+/// auxiliary trace (a periodic assertion takes the value at its first step and is in general violated by the trace) or, with
+/// `structured`, follow the given pattern
+fn aux_assertion_values<B: StarkField, E: FieldElement<BaseField = B>>(spec: &Spec, kinds: &[AKind], n_default: usize, aux_cols: &[Vec<E>], structured: Option<u64>, r: &mut Rng) -> Vec<(AKind, Vec<E>)> {
+    let n = spec.n();
+    kinds.iter().enumerate().map(|(i, a)| {
+        let (col, steps) = assertion_steps(a, n);
+        let vals: Vec<E> = if i < n_default { vec![if col == 0 { E::ONE } else { E::ZERO }] }
+            else if let Some(p) = structured { let m = if let AKind::Sequence { .. } = a { steps.len() } else { 1 }; structured_vals::<B>(p, m, r).into_iter().map(E::from).collect() }
+            else { match a { AKind::Sequence { .. } => steps.iter().map(|&s| aux_cols[col][s]).collect(), _ => vec![aux_cols[col][steps[0]]] } };
+        (a.clone(), vals)
     }).collect()
 }
 
@@ -343,7 +455,7 @@ fn note_shapes(st: &mut Stats, spec: &Spec, blowup: usize, ce_blowup: usize, ext
 
 // ================================================================================================ (a) + (b): evaluator driven directly
 #[allow(clippy::too_many_arguments)]
-fn direct_case<B, E>(spec: &Spec, blowup: usize, ext: FieldExtension, field: &str, structured: Option<u64>, r: &mut Rng, st: &mut Stats)
+fn direct_case<B, E>(spec: &Spec, aux_extra: &[AKind], blowup: usize, ext: FieldExtension, field: &str, structured: Option<u64>, r: &mut Rng, st: &mut Stats)
 where
     B: StarkField + ExtensibleField<2> + ExtensibleField<3> + 'static,
     E: FieldElement<BaseField = B>,
@@ -357,16 +469,27 @@ where
         avals = structured_avals::<B>(spec, p, r);
         desc.push_str(&format!(" assertion-values={}", PATTERNS[p as usize]));
     }
+    if !aux_extra.is_empty() { desc.push_str(&format!(" aux-assertions={:?}", aux_extra)); }
     let ftrace = FamTrace::new(spec, cols.clone());
     let info: TraceInfo = ftrace.info().clone();
     let opts = ProofOptions::new(4, blowup, 0, ext, 2, 1);
-    let air = match catch(AssertUnwindSafe(|| FamAir::<B>::new(info.clone(), PubInputs { spec: spec.clone(), avals: avals.clone() }, opts))) {
+    let main = ColMatrix::new(cols.clone());
+    let rands: Vec<E> = (0..spec.aux_rands).map(|_| rand_e::<E>(r)).collect();
+    let aux_cols: Vec<Vec<E>> = gen_aux::<B, E>(spec, &main, &rands);
+    let aux_kinds = aux_assertion_kinds(spec, aux_extra);
+    let aux_asserts = aux_assertion_values::<B, E>(spec, &aux_kinds, aux_kinds.len() - aux_extra.len(), &aux_cols, structured, r);
+    // a periodic assertion against a running sum/product column is violated by the honest auxiliary trace
+    let aux_invalid = aux_extra.iter().any(|a| matches!(a, AKind::Periodic { .. }));
+    let xpub = XPub { inner: PubInputs { spec: spec.clone(), avals: avals.clone() },
+                      aux: aux_asserts.iter().map(|(k, v)| (k.clone(), E::slice_as_base_elements(v).to_vec())).collect() };
+    let air = match catch(AssertUnwindSafe(|| XAir::<B>::new(info.clone(), xpub, opts))) {
         Ok(a) => a,
         Err(_) => { st.shape("skipped:air-constructor-rejects"); return; }
     };
     let ce_blowup = air.ce_blowup_factor();
     let ncols = air.context().num_constraint_composition_columns();
     note_shapes(st, spec, blowup, ce_blowup, ext, field, ncols);
+    if spec.aux_width > 0 { for c in boundary_cells(spec, &aux_kinds) { st.shape(&c); } }
     if let Some(p) = structured {
         for a in &spec.assertions {
             let cls = match a { AKind::Sequence { stride, .. } => { let m = n / stride; if m == 1 { "single" } else if m < 63 { "small-poly" } else { "large-poly" } } _ => "single" };
@@ -374,25 +497,22 @@ where
         }
     }
     let domain = StarkDomain::new(&air);
-    let main = ColMatrix::new(cols.clone());
     let (mut trace_lde, _polys): (DefaultTraceLde<E, ToyHasher<B>>, TracePolyTable<E>) = DefaultTraceLde::new(&info, &main, &domain);
-    let rands: Vec<E> = (0..spec.aux_rands).map(|_| rand_e::<E>(r)).collect();
-    let aux_cols: Vec<Vec<E>> = gen_aux::<B, E>(spec, &main, &rands);
     let aux_re = if spec.aux_width > 0 {
         trace_lde.set_aux_trace(&ColMatrix::new(aux_cols.clone()), &domain);
         Some(AuxRandElements::new(rands.clone()))
     } else { None };
     let tcoef: Vec<E> = (0..spec.width + spec.aux_width).map(|_| rand_e::<E>(r)).collect();
-    let bcoef: Vec<E> = (0..spec.assertions.len() + spec.aux_width).map(|_| rand_e::<E>(r)).collect();
+    let bcoef: Vec<E> = (0..spec.assertions.len() + aux_asserts.len()).map(|_| rand_e::<E>(r)).collect();
     let coeffs = ConstraintCompositionCoefficients { transition: tcoef.clone(), boundary: bcoef.clone(), lagrange: None };
     let evals: Vec<E> = match catch(AssertUnwindSafe(|| {
-        let ev = DefaultConstraintEvaluator::<FamAir<B>, E>::new(&air, aux_re, coeffs);
+        let ev = DefaultConstraintEvaluator::<XAir<B>, E>::new(&air, aux_re, coeffs);
         ev.evaluate(&trace_lde, &domain).into_inner()
     })) {
         Ok(v) => v,
         Err(m) => { fail("evaluate-panicked", &desc, "evaluations", &m); st.fails += 1; return; }
     };
-    let rd = RefDef::<B, E>::new(spec, cols, &avals, aux_cols, rands, tcoef, &bcoef);
+    let rd = RefDef::<B, E>::new(spec, cols, &avals, &aux_asserts, aux_cols, rands, tcoef, &bcoef);
     let ce = n * ce_blowup;
     if evals.len() != ce { fail("ce-domain-size", &desc, &ce.to_string(), &evals.len().to_string()); st.fails += 1; return; }
     let wce = B::get_root_of_unity(ce.ilog2());
@@ -400,7 +520,7 @@ where
     // (a) rows of the merged table: all rows for small domains, otherwise a sample containing the wrap-around rows
     let mut rows: Vec<usize> = if ce <= 64 { (0..ce).collect() } else {
         let mut v = vec![0, 1, ce_blowup - 1, ce_blowup, ce_blowup + 1, ce - 1, ce - ce_blowup, ce / 2, ce / 2 - 1];
-        for a in &spec.assertions { if let AKind::Sequence { first, .. } = a { let so = first * ce_blowup; v.extend([so.saturating_sub(1), so, so + 1]); } }
+        for a in spec.assertions.iter().chain(aux_extra.iter()) { if let AKind::Sequence { first, .. } = a { let so = first * ce_blowup; v.extend([so.saturating_sub(1), so, so + 1]); } }
         for _ in 0..24 { v.push(r.below(ce as u64) as usize); }
         v.retain(|&i| i < ce); v.sort(); v.dedup(); v
     };
@@ -425,7 +545,7 @@ where
     }
     // (b) interpolate + split into columns + evaluate_at + recombine, against the definition at random z
     // (not with structured assertion values: the trace violates them, the quotient is not a polynomial)
-    if structured.is_some() { return; }
+    if structured.is_some() || aux_invalid { return; }
     let cp = match catch(AssertUnwindSafe(|| CompositionPoly::new(CompositionPolyTrace::new(evals.clone()), &domain, ncols))) {
         Ok(c) => c,
         Err(m) => { fail("composition-poly-new-panicked", &desc, "columns", &m); st.fails += 1; return; }
@@ -551,7 +671,9 @@ where
     let z = drawn[want];
     let main_cm = ColMatrix::new(cols.clone());
     let aux_cols: Vec<Vec<E>> = gen_aux::<B, E>(spec, &main_cm, &rands);
-    let rd = RefDef::<B, E>::new(spec, cols, &avals, aux_cols, rands, tcoef, &bcoef);
+    let aux_kinds = aux_assertion_kinds(spec, &[]);
+    let aux_asserts = aux_assertion_values::<B, E>(spec, &aux_kinds, aux_kinds.len(), &aux_cols, None, r);
+    let rd = RefDef::<B, E>::new(spec, cols, &avals, &aux_asserts, aux_cols, rands, tcoef, &bcoef);
     let (frame, hs) = match proof.ood_frame.clone().parse::<E>(spec.width, spec.aux_width, ncols) {
         Ok(x) => x,
         Err(e) => { fail("ood-frame-parse", &desc, "frame", &format!("{}", e)); st.fails += 1; return; }
@@ -594,6 +716,29 @@ where
     }
 }
 
+/// up to two extra assertions on distinct auxiliary columns; (stride, first) copied from a main assertion (shared divisor)
+/// or fresh
+fn random_aux_extras(spec: &Spec, r: &mut Rng) -> Vec<AKind> {
+    let n = spec.n();
+    let mut out = vec![];
+    let mut cols: Vec<usize> = (0..spec.aux_width).collect();
+    for i in (1..cols.len()).rev() { let j = r.below(i as u64 + 1) as usize; cols.swap(i, j); }
+    let k = 1 + r.below(2) as usize;
+    for &col in cols.iter().take(k) {
+        let share = r.chance(1, 2);
+        let (stride, first) = match spec.assertions.iter().find_map(|a| match a { AKind::Periodic { first, stride, .. } | AKind::Sequence { first, stride, .. } if share => Some((*stride, *first)), _ => None }) {
+            Some(p) => p,
+            None => { let stride = pow2_le(r, 1, spec.log_n); (stride, r.below(stride as u64) as usize) }
+        };
+        out.push(match r.below(4) {
+            0 => { let step = match spec.assertions.iter().find_map(|a| if let AKind::Single { step, .. } = a { Some(*step) } else { None }) { Some(s) if share => s, _ => r.below(n as u64) as usize }; AKind::Single { col, step } }
+            1 => AKind::Periodic { col, first, stride },
+            _ => AKind::Sequence { col, first, stride },
+        });
+    }
+    out
+}
+
 fn falsify(seed: u64, budget: usize) {
     let mut r = Rng::new(seed);
     let mut st = Stats::default();
@@ -607,7 +752,7 @@ fn falsify(seed: u64, budget: usize) {
         if variant == 1 { s.aux_width = 1; s.aux_rands = 1; }
         s.assertions = vec![AKind::Single { col: 0, step: 0 }];
         if (d + (variant >= 2) as u32) as usize > blowup { continue; }
-        if variant % 2 == 0 { direct_case::<f64::BaseElement, f64::BaseElement>(&s, blowup, FieldExtension::None, "f64", None, &mut r, &mut st); }
+        if variant % 2 == 0 { direct_case::<f64::BaseElement, f64::BaseElement>(&s, &[], blowup, FieldExtension::None, "f64", None, &mut r, &mut st); }
         else { proof_case::<f64::BaseElement, QuadExtension<f64::BaseElement>>(&s, blowup, FieldExtension::Quadratic, "f64", &mut r, &mut st); }
     } } } }
     // boundary stream: structured assertion values for every representation: sequences of 2, 4, 8, 32 (small polynomial) and
@@ -621,10 +766,39 @@ fn falsify(seed: u64, budget: usize) {
         let first = if first_nz { stride - 1 } else { 0 };
         s.assertions = vec![AKind::Sequence { col: 0, first, stride }, AKind::Periodic { col: 1, first, stride },
                             AKind::Single { col: 2, step: if first_nz { n - 1 } else { 0 } }];
-        if p % 2 == 0 { direct_case::<f64::BaseElement, f64::BaseElement>(&s, 4, FieldExtension::None, "f64", Some(p), &mut r, &mut st); }
-        else { direct_case::<f64::BaseElement, QuadExtension<f64::BaseElement>>(&s, 4, FieldExtension::Quadratic, "f64", Some(p), &mut r, &mut st); }
-        if m == 8 { direct_case::<f128::BaseElement, f128::BaseElement>(&s, 2, FieldExtension::None, "f128", Some(p), &mut r, &mut st); }
+        if p % 2 == 0 { direct_case::<f64::BaseElement, f64::BaseElement>(&s, &[], 4, FieldExtension::None, "f64", Some(p), &mut r, &mut st); }
+        else { direct_case::<f64::BaseElement, QuadExtension<f64::BaseElement>>(&s, &[], 4, FieldExtension::Quadratic, "f64", Some(p), &mut r, &mut st); }
+        if m == 8 { direct_case::<f128::BaseElement, f128::BaseElement>(&s, &[], 2, FieldExtension::None, "f128", Some(p), &mut r, &mut st); }
     } } }
+    // boundary stream: the matrix {main, aux} x {single value (single / periodic), small polynomial, large polynomial} x
+    // {divisor shared with a group of the other segment, not shared}: n = 128, one assertion of each kind against main column 0
+    // and against auxiliary column 1, same or different first step
+    {
+        let n = 128usize;
+        let kinds = |col: usize, k: usize, first_nz: bool| -> AKind { match k {
+            0 => AKind::Single { col, step: if first_nz { 5 } else { 0 } },
+            1 => AKind::Periodic { col, first: if first_nz { 3 } else { 0 }, stride: 4 },
+            2 => AKind::Periodic { col, first: first_nz as usize, stride: 2 },
+            3 => AKind::Sequence { col, first: if first_nz { 3 } else { 0 }, stride: 4 },
+            _ => AKind::Sequence { col, first: first_nz as usize, stride: 2 },
+        } };
+        let mut idx = 0u64;
+        for km in 0..5usize { for ka in 0..5usize { for same_first in [true, false] { for main_nz in [false, true] {
+            idx += 1;
+            let mut s = Spec::simple(2, n.ilog2(), 1, 9000 + idx);
+            s.degs = vec![2, 1];
+            s.hold = vec![km == 1 || km == 2, false];
+            s.aux_width = 2; s.aux_rands = 1 + (idx % 2) as usize;
+            s.assertions = vec![kinds(0, km, main_nz)];
+            let extra = vec![kinds(1, ka, if same_first { main_nz } else { !main_nz })];
+            let structured = if idx % 4 == 0 { Some(idx / 4 % PATTERNS.len() as u64) } else { None };
+            match idx % 3 {
+                0 => direct_case::<f64::BaseElement, f64::BaseElement>(&s, &extra, 4, FieldExtension::None, "f64", structured, &mut r, &mut st),
+                1 => direct_case::<f64::BaseElement, QuadExtension<f64::BaseElement>>(&s, &extra, 4, FieldExtension::Quadratic, "f64", structured, &mut r, &mut st),
+                _ => direct_case::<f128::BaseElement, f128::BaseElement>(&s, &extra, 2, FieldExtension::None, "f128", structured, &mut r, &mut st),
+            }
+        } } } }
+    }
     let mut i = 0usize;
     while (st.evals as usize) < budget && i < budget * 4 + 64 {
         i += 1;
@@ -635,9 +809,10 @@ fn falsify(seed: u64, budget: usize) {
         let sel = r.below(5);
         // every fifth directly driven case uses structured assertion values on a random member of the family
         let structured = if !through_proof && i % 5 == 1 { Some(r.below(PATTERNS.len() as u64)) } else { None };
+        let extra: Vec<AKind> = if !through_proof && spec.aux_width > 0 && i % 2 == 0 { random_aux_extras(&spec, &mut r) } else { vec![] };
         macro_rules! go { ($B:ty, $E:ty, $ext:expr, $name:expr) => {{
             if through_proof { proof_case::<$B, $E>(&spec, blowup, $ext, $name, &mut r, &mut st) }
-            else { direct_case::<$B, $E>(&spec, blowup, $ext, $name, structured, &mut r, &mut st) }
+            else { direct_case::<$B, $E>(&spec, &extra, blowup, $ext, $name, structured, &mut r, &mut st) }
         }}; }
         match sel {
             0 => go!(f64::BaseElement, f64::BaseElement, FieldExtension::None, "f64"),
@@ -669,23 +844,26 @@ fn push_groups(out: &mut Vec<String>, groups: &[winter_air::BoundaryConstraintGr
     }
 }
 
-fn corr_eval(spec: &Spec, blowup: usize, structured: Option<u64>, r: &mut Rng) -> Option<String> {
+fn corr_eval(spec: &Spec, aux_extra: &[AKind], blowup: usize, structured: Option<u64>, r: &mut Rng) -> Option<String> {
     let n = spec.n();
     let cols = gen_main::<B64>(spec);
     let avals = match structured { Some(p) => structured_avals::<B64>(spec, p, r), None => assertion_values(spec, &cols) };
     let ftrace = FamTrace::new(spec, cols.clone());
     let info = ftrace.info().clone();
     let opts = ProofOptions::new(4, blowup, 0, FieldExtension::None, 2, 1);
-    let air = catch(AssertUnwindSafe(|| FamAir::<B64>::new(info.clone(), PubInputs { spec: spec.clone(), avals: avals.clone() }, opts))).ok()?;
-    let ceb = air.ce_blowup_factor();
-    let domain = StarkDomain::new(&air);
     let main = ColMatrix::new(cols.clone());
-    let (mut lde, _p): (DefaultTraceLde<B64, ToyHasher<B64>>, TracePolyTable<B64>) = DefaultTraceLde::new(&info, &main, &domain);
     let rands: Vec<B64> = (0..spec.aux_rands).map(|_| rand_e::<B64>(r)).collect();
     let aux_cols = gen_aux::<B64, B64>(spec, &main, &rands);
+    let aux_kinds = aux_assertion_kinds(spec, aux_extra);
+    let aux_asserts = aux_assertion_values::<B64, B64>(spec, &aux_kinds, aux_kinds.len() - aux_extra.len(), &aux_cols, structured, r);
+    let xpub = XPub { inner: PubInputs { spec: spec.clone(), avals: avals.clone() }, aux: aux_asserts.clone() };
+    let air = catch(AssertUnwindSafe(|| XAir::<B64>::new(info.clone(), xpub, opts))).ok()?;
+    let ceb = air.ce_blowup_factor();
+    let domain = StarkDomain::new(&air);
+    let (mut lde, _p): (DefaultTraceLde<B64, ToyHasher<B64>>, TracePolyTable<B64>) = DefaultTraceLde::new(&info, &main, &domain);
     let aux_re = if spec.aux_width > 0 { lde.set_aux_trace(&ColMatrix::new(aux_cols), &domain); Some(AuxRandElements::new(rands.clone())) } else { None };
     let tcoef: Vec<B64> = (0..spec.width + spec.aux_width).map(|_| rand_e::<B64>(r)).collect();
-    let bcoef: Vec<B64> = (0..spec.assertions.len() + spec.aux_width).map(|_| rand_e::<B64>(r)).collect();
+    let bcoef: Vec<B64> = (0..spec.assertions.len() + aux_asserts.len()).map(|_| rand_e::<B64>(r)).collect();
     let coeffs = ConstraintCompositionCoefficients { transition: tcoef.clone(), boundary: bcoef.clone(), lagrange: None };
     let bcs = air.get_boundary_constraints(aux_re.as_ref().map(|a| a.rand_elements()), &bcoef);
     let mut t: Vec<String> = vec!["eval".into(), format!("{:x} {:x} {:x} {}", n, ceb, blowup, h64(air.domain_offset()))];
@@ -719,7 +897,7 @@ fn corr_eval(spec: &Spec, blowup: usize, structured: Option<u64>, r: &mut Rng) -
         }
     }
     let _ = &mut af;
-    let evals = catch(AssertUnwindSafe(|| DefaultConstraintEvaluator::<FamAir<B64>, B64>::new(&air, aux_re, coeffs).evaluate(&lde, &domain).into_inner()));
+    let evals = catch(AssertUnwindSafe(|| DefaultConstraintEvaluator::<XAir<B64>, B64>::new(&air, aux_re, coeffs).evaluate(&lde, &domain).into_inner()));
     let res = match evals { Ok(v) => v.iter().map(|e| h64(*e)).collect::<Vec<_>>().join(","), Err(_) => "panic".into() };
     Some(format!("{} => {}", t.join(" ").split_whitespace().collect::<Vec<_>>().join(" "), res))
 }
@@ -812,7 +990,17 @@ fn corr(seed: u64, count: usize) {
             let stride = if n >= 16 { n / 8 } else { 2 };
             spec.assertions[0] = AKind::Sequence { col: assertion_steps(&spec.assertions[0], n).0, first: (made % 2) * (stride - 1), stride };
         }
-        if let Some(l) = corr_eval(&spec, blowup, structured, &mut r) { lines.push(l); made += 1; }
+        // auxiliary assertions beyond the family's single values: in the n = 128 case an aux sequence of 64 values whose divisor
+        // is that of a main periodic assertion (merged into the main group by the prover), otherwise random extras
+        let mut extra: Vec<AKind> = vec![];
+        if big {
+            spec.aux_width = 2; spec.aux_rands = 1;
+            spec.hold[0] = true;
+            spec.assertions = vec![AKind::Periodic { col: 0, first: 1, stride: 2 }];
+            if spec.width > 1 { spec.assertions.push(AKind::Sequence { col: 1, first: 0, stride: 4 }); }
+            extra = vec![AKind::Sequence { col: 1, first: 1, stride: 2 }];
+        } else if spec.aux_width > 0 { extra = random_aux_extras(&spec, &mut r); }
+        if let Some(l) = corr_eval(&spec, &extra, blowup, structured, &mut r) { lines.push(l); made += 1; }
     }
     for k in 0..count { lines.push(corr_split(&mut r, k)); }
     for _ in 0..count {
